@@ -43,6 +43,8 @@ def _fallible(I_, st, dty, v_builder):
 def cursor_contracts(I, sizes=False):
     """the cursor as a source of unknown bytes: every call is recorded in the path's trace"""
     from .absint import StrV
+    # the rules read the events of a path: results of helper functions of the parser are never joined
+    I.partition_prefixes['local::transition_rule::'] = lambda I_, st, v: id(st)
 
     def get_next(I_, st, args, dty, site):
         s1, v, outs = _fallible(I_, st, dty, lambda s: I_.top(s, U8, 'byte'))
@@ -78,6 +80,18 @@ def cursor_contracts(I, sizes=False):
         s1, v, outs = _fallible(I_, st, dty, lambda s: fresh_slice(I_, s))
         s1.trace = s1.trace + (('tag',),)
         return outs
+    # a peek through `remaining().first()` is the same observation as get_next: the byte is recorded
+    m_first = I.find_model('core::slice::<impl [T]>::first')
+
+    def first(I_, st, args, dty, site):
+        outs = m_first(I_, st, args, dty, site)
+        for s2, v in outs or []:
+            if v[0] == 'e' and 1 in v[2] and site.get('fn', '').startswith('local::'):
+                e = deref(I_, s2, v[2][1][0])
+                if e is not None and e[0] == 'i':
+                    s2.trace = s2.trace + (('next', e[1]),)
+        return outs
+    I.models['core::slice::<impl [T]>::first'] = first
     I.contracts[CUR + 'get_next'] = get_next
     I.contracts[CUR + 'read_exact'] = read_exact
     I.contracts[CUR + 'read_while'] = read_some
@@ -530,7 +544,7 @@ def rule_versions(ctx, facts):
     results = []
     # one run per combination of header versions (first header, second header): paths of different combinations are never joined
     for combo in ((0, 0), (1, 0), (1, 1), (1, 2), (2, 0), (2, 1), (2, 2)):
-        N = Numeric(ctx, 'default', max_disj=400, max_steps=2_000_000)
+        N = Numeric(ctx, 'default', max_disj=5000, max_steps=6_000_000)
         I = N.I
         for f in (install_splitter_contract, install_tz_partitions):
             f(I)
